@@ -170,13 +170,15 @@ class HttpParser:
         nb_parsed = 0
         while True:
             if not self.__on_firstline:
+                # search the carried-over bytes too: CR and LF may arrive in different reads
+                self._buf.append(data)
+                data = b''.join(self._buf)
+                self._buf = [data]
                 idx = data.find(b'\r\n')
                 if idx < 0:
-                    self._buf.append(data)
-                    return len(data)
+                    return length
                 self.__on_firstline = True
-                self._buf.append(data[:idx])
-                first_line = b''.join(self._buf)
+                first_line = data[:idx]
                 first_line = str(first_line, 'unicode_escape')
                 nb_parsed = nb_parsed + idx + 2
 
